@@ -196,6 +196,45 @@ func c06Channels(c *Ctx) {
 				if tc, ok := opt.(*ssa.Call); ok && FuncIs(tc.Call.StaticCallee(), ModPath+"/event", "Token") && Render(tc.Call.Args[0]) == "p0.Token" {
 					okTok = true
 				}
+				// the option built once by the constructor and kept in a field: setToken = event.Token(token), with the same
+				// token the channel is given, and written nowhere else
+				if fname, isF := c06RecvField(opt, ts); isF {
+					stores, good := 0, 0
+					for _, fn := range p.FuncsIn("pushers") {
+						for _, b := range fn.Blocks {
+							for _, in2 := range b.Instrs {
+								st, ok := in2.(*ssa.Store)
+								if !ok {
+									continue
+								}
+								fa, ok := st.Addr.(*ssa.FieldAddr)
+								if !ok || fieldNameOf(fa) != fname || NamedOf(fa.X.Type()) == nil || NamedOf(fa.X.Type()).Obj().Name() != "tokenChannel" {
+									continue
+								}
+								stores++
+								if tc, ok := st.Val.(*ssa.Call); ok && FuncIs(tc.Call.StaticCallee(), ModPath+"/event", "Token") {
+									if pr, isP := tc.Call.Args[0].(*ssa.Parameter); isP && pr.Parent() == fn {
+										// the Token field of the same literal gets the same parameter (or there is no other token source)
+										same := true
+										for _, b2 := range fn.Blocks {
+											for _, in3 := range b2.Instrs {
+												if s3, ok := in3.(*ssa.Store); ok {
+													if fa3, ok := s3.Addr.(*ssa.FieldAddr); ok && fa3.X == fa.X && fieldNameOf(fa3) == "Token" && s3.Val != ssa.Value(pr) {
+														same = false
+													}
+												}
+											}
+										}
+										if same {
+											good++
+										}
+									}
+								}
+							}
+						}
+					}
+					okTok = stores == 1 && good == 1
+				}
 			}
 		}
 		c.Check(okTok, "token-channel", "tokenChannel applies token", p.InstrPos(in), "event.Apply(e, event.Token(mc.Token))", "the forwarded event is not e with event.Token(mc.Token) applied: "+Render(in.Call.Args[0]))
@@ -234,35 +273,131 @@ func c06Channels(c *Ctx) {
 func c06Regex(c *Ctx) {
 	p := c.P
 	rf := p.Func("pushers", "RegexFilterFunc")
-	if !c.Anchor(rf != nil && len(rf.AnonFuncs) == 1, "regex-any-of", "pushers.RegexFilterFunc and its closure") {
+	if !c.Anchor(rf != nil, "regex-any-of", "pushers.RegexFilterFunc") {
 		return
 	}
-	cl := rf.AnonFuncs[0]
-	// closure bindings
-	var mc *ssa.MakeClosure
-	for _, m := range MakeClosures(rf) {
-		mc = m
-	}
-	bind := ClosureBindings(mc)
-	var fieldFV, matchFV *ssa.FreeVar
-	for fv, b := range bind {
-		b = Deref(b)
-		if b == ssa.Value(rf.Params[0]) {
-			fieldFV = fv
-		} else if a, ok := b.(*ssa.Alloc); ok {
+	// The filter handed back: a function literal capturing the field name and the compiled matchers (form A), or a method
+	// value of a struct built here that holds them (form B). `cl` is the filter's body, `ev` its event parameter, isField /
+	// isMatchers recognise the captured field name and matcher list inside it, `built` is the value RegexFilterFunc returns.
+	var cl *ssa.Function
+	var ev ssa.Value
+	var built ssa.Value
+	var isField, isMatchers func(v ssa.Value) bool
+	matchersOK := false // the captured list is the one compiled in this call
+	compiledHere := func(v ssa.Value) bool {
+		v = Deref(v)
+		if a, ok := v.(*ssa.Alloc); ok {
 			for _, sv := range StoredValues(a) {
-				if sv == ssa.Value(rf.Params[0]) {
-					fieldFV = fv
+				v = sv
+			}
+		}
+		switch x := v.(type) {
+		case *ssa.MakeSlice:
+			return true
+		case *ssa.Call:
+			// compileExpressions(expressions): a helper given this call's expression list
+			hf := x.Call.StaticCallee()
+			if hf != nil && InRepo(hf) && hf.Blocks != nil {
+				for _, a := range x.Call.Args {
+					if a == ssa.Value(rf.Params[1]) {
+						return true
+					}
 				}
-				if _, ok := sv.(*ssa.MakeSlice); ok {
+			}
+		}
+		return false
+	}
+	for _, mc := range MakeClosures(rf) {
+		fn, _ := mc.Fn.(*ssa.Function)
+		if fn == nil {
+			continue
+		}
+		if fn.Parent() == rf {
+			// form A
+			bind := ClosureBindings(mc)
+			var fieldFV, matchFV *ssa.FreeVar
+			for fv, bv := range bind {
+				d := Deref(bv)
+				if d == ssa.Value(rf.Params[0]) {
+					fieldFV = fv
+				} else if a, ok := d.(*ssa.Alloc); ok {
+					for _, sv := range StoredValues(a) {
+						if sv == ssa.Value(rf.Params[0]) {
+							fieldFV = fv
+						}
+					}
+					if compiledHere(a) {
+						matchFV = fv
+					}
+				} else if compiledHere(d) {
 					matchFV = fv
 				}
 			}
-		} else if _, ok := b.(*ssa.MakeSlice); ok {
-			matchFV = fv
+			if fieldFV == nil || matchFV == nil {
+				continue
+			}
+			isFV := func(v ssa.Value, fv *ssa.FreeVar) bool {
+				if v == ssa.Value(fv) {
+					return true
+				}
+				ld, ok := isLoad(v)
+				return ok && ld.X == ssa.Value(fv)
+			}
+			cl, ev, built, matchersOK = fn, fn.Params[0], mc, true
+			isField = func(v ssa.Value) bool { return isFV(v, fieldFV) }
+			isMatchers = func(v ssa.Value) bool { return isFV(v, matchFV) }
+		} else if strings.HasSuffix(fn.Name(), "$bound") && len(mc.Bindings) == 1 {
+			// form B: rf.admits, a method value of &regexFilter{field: field, matchers: …} built in this call
+			obj, ok := mc.Bindings[0].(*ssa.Alloc)
+			if !ok {
+				continue
+			}
+			var method *ssa.Function
+			for _, call := range Calls(fn) {
+				if m := call.Common().StaticCallee(); m != nil && InRepo(m) && m.Blocks != nil {
+					method = m
+				}
+			}
+			if method == nil || len(method.Params) != 2 {
+				continue
+			}
+			fieldName, matchName := "", ""
+			for _, r := range *obj.Referrers() {
+				fa, ok := r.(*ssa.FieldAddr)
+				if !ok {
+					continue
+				}
+				for _, r2 := range *fa.Referrers() {
+					st, ok := r2.(*ssa.Store)
+					if !ok || st.Addr != ssa.Value(fa) {
+						continue
+					}
+					if st.Val == ssa.Value(rf.Params[0]) {
+						fieldName = fieldNameOf(fa)
+					}
+					if compiledHere(st.Val) {
+						matchName = fieldNameOf(fa)
+					}
+				}
+			}
+			if fieldName == "" || matchName == "" {
+				continue
+			}
+			recv := method.Params[0]
+			isRecvField := func(v ssa.Value, name string) bool {
+				ld, ok := isLoad(v)
+				if !ok {
+					return false
+				}
+				fa, ok := ld.X.(*ssa.FieldAddr)
+				return ok && fa.X == ssa.Value(recv) && fieldNameOf(fa) == name
+			}
+			cl, ev, built, matchersOK = method, method.Params[1], mc, true
+			isField = func(v ssa.Value) bool { return isRecvField(v, fieldName) }
+			isMatchers = func(v ssa.Value) bool { return isRecvField(v, matchName) }
 		}
 	}
-	if !c.Check(fieldFV != nil && matchFV != nil, "regex-any-of", "closure captures field and matchers", p.Pos(cl.Pos()), "", "the filter closure does not capture the field name parameter and the compiled matcher slice") {
+	if !c.Check(cl != nil && matchersOK, "regex-any-of", "closure captures field and matchers", p.Pos(rf.Pos()), "", "the filter RegexFilterFunc builds does not carry this call's field name and the matcher list compiled in this call") {
 		return
 	}
 	// what is handed back is the filter built in THIS call for THIS field and THIS list: a filter taken from a cache keyed by
@@ -270,18 +405,11 @@ func c06Regex(c *Ctx) {
 	for i, r := range Returns(rf) {
 		fresh := true
 		for _, lf := range leaves(RetVals(r)[0]) {
-			if lf != ssa.Value(mc) {
+			if lf != built {
 				fresh = false
 			}
 		}
 		c.Check(fresh, "regex-any-of", fmt.Sprintf("RegexFilterFunc return[%d] is the filter built in this call", i), p.InstrPos(r), "", "RegexFilterFunc can hand back a filter that was not built in this call (`"+RenderN(RetVals(r)[0], 3)+"`): a filter remembered from an earlier call matches on that call's field and expressions, so what one channel's filter admits depends on which other filters were configured before it")
-	}
-	isFV := func(v ssa.Value, fv *ssa.FreeVar) bool {
-		if v == ssa.Value(fv) {
-			return true
-		}
-		ld, ok := isLoad(v)
-		return ok && ld.X == ssa.Value(fv)
 	}
 	isMatcherElem := func(v ssa.Value) bool {
 		ld, ok := isLoad(v)
@@ -289,7 +417,7 @@ func c06Regex(c *Ctx) {
 			return false
 		}
 		ia, ok := ld.X.(*ssa.IndexAddr)
-		return ok && isAscendingIndex(ia.Index) && isFV(ia.X, matchFV)
+		return ok && isAscendingIndex(ia.Index) && isMatchers(ia.X)
 	}
 	ntrue, nfalse := 0, 0
 	for i, r := range Returns(cl) {
@@ -311,7 +439,7 @@ func c06Regex(c *Ctx) {
 				if !isMatcherElem(call.Call.Args[0]) {
 					continue
 				}
-				if g, ok := call.Call.Args[1].(*ssa.Call); ok && MethodIs(g.Call.StaticCallee(), ModPath+"/event", "Event", "Get") && g.Call.Args[0] == ssa.Value(cl.Params[0]) && isFV(g.Call.Args[1], fieldFV) {
+				if g, ok := call.Call.Args[1].(*ssa.Call); ok && MethodIs(g.Call.StaticCallee(), ModPath+"/event", "Event", "Get") && g.Call.Args[0] == ev && isField(g.Call.Args[1]) {
 					good = true
 				}
 			}
@@ -321,7 +449,7 @@ func c06Regex(c *Ctx) {
 			ex := false
 			for _, dc := range conds {
 				if b, ok := dc.V.(*ssa.BinOp); ok && b.Op == token.LSS && !dc.Pol && isAscendingIndex(b.X) {
-					if x, ok := isLenOf(b.Y); ok && isFV(x, matchFV) {
+					if x, ok := isLenOf(b.Y); ok && isMatchers(x) {
 						ex = true
 					}
 				}
@@ -329,7 +457,7 @@ func c06Regex(c *Ctx) {
 			// nothing to try at all: `if len(matchers) == 0 { return false }`
 			for _, dc := range conds {
 				if b, ok := dc.V.(*ssa.BinOp); ok {
-					if x, isLen := isLenOf(b.X); isLen && isFV(x, matchFV) {
+					if x, isLen := isLenOf(b.X); isLen && isMatchers(x) {
 						if k0, isC := ConstInt(b.Y); isC && k0 == 0 && ((b.Op == token.EQL && dc.Pol) || (b.Op == token.NEQ && !dc.Pol) || (b.Op == token.GTR && !dc.Pol)) {
 							ex = true
 						}
@@ -340,13 +468,26 @@ func c06Regex(c *Ctx) {
 		}
 	}
 	c.Check(ntrue == 1 && nfalse >= 1, "regex-any-of", "filter closure arms", p.Pos(cl.Pos()), "", fmt.Sprintf("expected one admitting and one rejecting return, found %d/%d", ntrue, nfalse))
-	// compile loop: matchers[i] = MustCompile(expressions[i]); len(matchers)=len(expressions)
+	// compile loop: matchers[i] = MustCompile(expressions[i]); len(matchers)=len(expressions) – in RegexFilterFunc itself or in the
+	// helper it hands the expression list to
+	compFn, exprs := rf, ssa.Value(rf.Params[1])
+	for _, call := range Calls(rf) {
+		hf := call.Common().StaticCallee()
+		if hf == nil || !InRepo(hf) || hf.Blocks == nil {
+			continue
+		}
+		for ai, a := range call.Common().Args {
+			if a == ssa.Value(rf.Params[1]) && ai < len(hf.Params) {
+				compFn, exprs = hf, ssa.Value(hf.Params[ai])
+			}
+		}
+	}
 	okLen, okFill := false, false
-	for _, b := range rf.Blocks {
+	for _, b := range compFn.Blocks {
 		for _, in := range b.Instrs {
 			switch x := in.(type) {
 			case *ssa.MakeSlice:
-				if a, ok := isLenOf(x.Len); ok && a == ssa.Value(rf.Params[1]) {
+				if a, ok := isLenOf(x.Len); ok && a == exprs {
 					okLen = true
 				}
 			case *ssa.Store:
@@ -357,7 +498,7 @@ func c06Regex(c *Ctx) {
 				if call, ok := x.Val.(*ssa.Call); ok && (FuncIs(call.Call.StaticCallee(), "regexp", "MustCompile") || FuncIs(call.Call.StaticCallee(), "regexp", "Compile")) {
 					// argument = expressions[idx] with the same idx
 					if ld, ok := isLoad(call.Call.Args[0]); ok {
-						if ia2, ok := ld.X.(*ssa.IndexAddr); ok && ia2.X == ssa.Value(rf.Params[1]) && ia2.Index == ia.Index && isAscendingIndex(ia.Index) {
+						if ia2, ok := ld.X.(*ssa.IndexAddr); ok && ia2.X == exprs && ia2.Index == ia.Index && isAscendingIndex(ia.Index) {
 							okFill = true
 						}
 					}
@@ -365,7 +506,7 @@ func c06Regex(c *Ctx) {
 			}
 		}
 	}
-	c.Check(okLen && okFill, "regex-any-of", "one matcher per expression", p.Pos(rf.Pos()), "matchers[i] = MustCompile(expressions[i]) for every i", "the compiled matcher list does not hold exactly one compiled matcher per configured expression at the same index")
+	c.Check(okLen && okFill, "regex-any-of", "one matcher per expression", p.Pos(compFn.Pos()), "matchers[i] = MustCompile(expressions[i]) for every i", "the compiled matcher list does not hold exactly one compiled matcher per configured expression at the same index")
 }
 
 func c06Wiring(c *Ctx) {
@@ -583,4 +724,27 @@ func c06Wiring(c *Ctx) {
 		}
 	}
 	c.Check(n == 1, "wiring", "Run filter subscription sites", p.Pos(run.Pos()), "", fmt.Sprintf("expected one configured-filter Subscribe site, found %d", n))
+}
+
+// c06RecvField: v is a load of a field of fn's receiver; returns the field name.
+func c06RecvField(v ssa.Value, fn *ssa.Function) (string, bool) {
+	ld, ok := isLoad(v)
+	if !ok {
+		return "", false
+	}
+	fa, ok := ld.X.(*ssa.FieldAddr)
+	if !ok {
+		return "", false
+	}
+	base := fa.X
+	if a, isA := base.(*ssa.Alloc); isA {
+		// value receiver spilled to a local
+		for _, sv := range StoredValues(a) {
+			base = sv
+		}
+	}
+	if base != ssa.Value(fn.Params[0]) {
+		return "", false
+	}
+	return fieldNameOf(fa), true
 }
